@@ -285,7 +285,7 @@ def mk(r):
         c = (a[0] / c) if a[0] else c
         return c * a[2] if len(a) > 2 and a[2] else c
     if k == "RestreamData":
-        return C.RestreamData(untag(a[0]) if isinstance(a[0], dict) else mk(a[0]), mk(a[1]))
+        return C.RestreamData(untag(a[0]) if isinstance(a[0], dict) else mkexpr(a[0]) if is_expr(a[0]) else mk(a[0]), mk(a[1]))
     if k == "Transformed":               # fixed menu of functions, by name
         from construct.lib import swapbytes, swapbitsinbytes, bytes2bits, bits2bytes
         fn = {"swapbytes": swapbytes, "swapbitsinbytes": swapbitsinbytes, "bytes2bits": bytes2bits, "bits2bytes": bits2bytes}
